@@ -7,6 +7,7 @@ from pyasn1.codec.cer import decoder as cer_decoder
 from pyasn1.codec.der import decoder as der_decoder
 from pyasn1 import error
 from pyasn1.type import base as asn1base
+from pyasn1.type import univ
 
 from .. import universe as U
 from .. import refx690 as R
@@ -24,10 +25,12 @@ RULE = ('inputs = (i) ALL byte strings of length <= 3 over a 28-octet structural
         'by 1..3 mutations (bit flips, structural overwrite, insert/delete, tag/length rewrites incl. 0x80 and huge '
         'lengths, truncation, splice), (iii) TLV trees with wrong lengths/tags nested up to depth 40, (iv) ALL contents '
         'of length <= 2 (REAL, OID, BIT STRING, GeneralizedTime: <= 3; thorough: one more) over 26 octets that are '
-        'structural inside contents, under each of 17 leaf tags; each x {BER, CER, '
+        'structural inside contents, under each of 17 leaf tags, (v) REALs whose exponent field spans 3..126 octets, '
+        'bare and inside SEQUENCE (SIZE (2..3)) OF REAL and SEQUENCE { r REAL DEFAULT 0, .. }; each x {BER, CER, '
         'DER} x {one-shot, streaming} x {no type, the seed type, an unrelated type}; non-trivial = input is not a valid '
         'encoding of the guiding type; distinct = sha1 of (input, decoder, mode, type)')
 ASSUMPTIONS = ['nesting is bounded (<= 40) so RecursionError by sheer depth is outside the claim',
+               'work inside a single C call is bounded through CPU time: 20 CPU seconds (ITIMER_PROF) per decoder call',
                'step budget A + B*|input| with A = 6000, B = 600 repo-code call/resume events (measured ~8 per octet on '
                'valid input); read budget 64 + 8*|input| substrate reads']
 KEY_FEATURES = ('decoder', 'mode', 'spec')
@@ -57,6 +60,49 @@ LEAF_TAGS = [(0x01, ('bool',)), (0x02, ('int',)), (0x03, ('bits',)), (0x04, ('oc
              (0x23, ('bits',)), (0x24, ('octs',)), (0x2c, ('char', 'UTF8String'))]
 CONTENT_ALPHABET = [0x00, 0x01, 0x02, 0x03, 0x04, 0x07, 0x08, 0x09, 0x40, 0x41, 0x42, 0x43, 0x7f, 0x80, 0x81, 0x82, 0x83,
                     0xbf, 0xc0, 0xff, 0x30, 0x2e, 0x45, 0x2b, 0x2d, 0x20]
+
+
+def _sized_seqof_real():
+    from pyasn1.type import constraint
+    return univ.SequenceOf(componentType=univ.Real()).subtype(subtypeSpec=constraint.ValueSizeConstraint(2, 3))
+
+
+def _rec_default_real():
+    from pyasn1.type import namedtype
+    return univ.Sequence(componentType=namedtype.NamedTypes(
+        namedtype.DefaultedNamedType('r', univ.Real(0)), namedtype.OptionalNamedType('n', univ.Integer())))
+
+
+# guiding types outside the universe AST (constraints), named by a token in the case
+CUSTOM_SPECS = {'SEQUENCE (SIZE (2..3)) OF REAL': _sized_seqof_real, 'SEQUENCE { r REAL DEFAULT 0, n INTEGER OPTIONAL }': _rec_default_real}
+GUARD_FIRED = [0]
+CPU_LIMIT = 20.0     # CPU seconds for ONE decoder call on an input of at most a few thousand octets (normal: milliseconds)
+
+
+def huge_real_inputs():
+    """REAL contents whose exponent field claims an astronomically large (or small) exponent, bare and inside the two
+    containers above: decoding them is cheap, but anything that turns such a value into a float or prints it (a
+    constraint error message, a DEFAULT comparison) must not do work proportional to the exponent's VALUE."""
+    out = []
+    for first in (0x80, 0xc0, 0xa0):
+        for explen in (3, 4, 5, 8, 126):
+            for lead in (0x7f, 0x01, 0x80):
+                exp = bytes([lead]) + b'\xff' * (explen - 1)
+                if explen <= 3:
+                    head = bytes([first | (explen - 1)])
+                else:
+                    head = bytes([first | 3, explen])
+                for mant in (b'\x01', b'\x00'):
+                    content = head + exp + mant
+                    if len(content) > 127:
+                        continue
+                    real = b'\x09' + bytes([len(content)]) + content
+                    out.append(real)
+                    if len(real) + 2 <= 127:
+                        out.append(b'\x30' + bytes([len(real)]) + real)
+                    if 2 * len(real) + 2 <= 127:
+                        out.append(b'\x30' + bytes([2 * len(real)]) + real + real)
+    return out
 
 
 class CountingBytesIO(io.BytesIO):
@@ -97,6 +143,10 @@ def run_input(res, sc, data, T, schema, origin):
             stream = CountingBytesIO(data)
             sc.reset(STEP_A + STEP_B * n)
             outcome = None
+            # (after the bound was exceeded twice in this shard the point is made: later calls get 1 CPU second, so
+            # that a tree with such a defect still finishes and reports instead of running into the watchdog)
+            guard = M.cpu_guard(CPU_LIMIT if GUARD_FIRED[0] < 2 else 1.0)
+            guard.__enter__()
             try:
                 if mode == 'oneshot':
                     r = dec.decode(stream, asn1Spec=schema) if schema is not None else dec.decode(stream)
@@ -131,6 +181,11 @@ def run_input(res, sc, data, T, schema, origin):
                             outcome = 'too-many-objects'
                             res.witness('stream:more-objects-than-octets', feats, case, k)
                             break
+            except M.CpuBudgetExceeded:
+                GUARD_FIRED[0] += 1
+                outcome = 'cpu-budget'
+                res.witness('cpu-time-bound-exceeded', feats, case,
+                            'one %s call on %d octets burnt more than %s CPU seconds' % (mode, n, CPU_LIMIT))
             except M.StepCounter.StepBudgetExceeded:
                 outcome = 'step-budget'
                 res.witness('step-budget-exceeded', feats, case, 'more than %d steps for %d octets' % (STEP_A + STEP_B * n, n))
@@ -145,6 +200,7 @@ def run_input(res, sc, data, T, schema, origin):
                 else:
                     outcome = c
             finally:
+                guard.__exit__(None, None, None)
                 steps = sc.count
                 sc.budget = None
             res.see('outcome:%s:%s:%s' % (dname, mode, outcome))
@@ -254,6 +310,16 @@ def run_shard(shard, tier, seed):
                 break
         if leaf_done:
             res.see('leaf-content-shards-completed')
+        # (v) REALs with astronomically large exponents, bare and inside constrained / defaulted containers
+        customs = [(name, mk()) for name, mk in sorted(CUSTOM_SPECS.items())]
+        for j, data in enumerate(huge_real_inputs()):
+            if j % shard['nshards'] != shard['shard']:
+                continue
+            run_input(res, sc, data, None, None, 'huge-real')
+            run_input(res, sc, data, ('real',), B.schema(('real',)), 'huge-real')
+            for name, sch in customs:
+                run_input(res, sc, data, name, sch, 'huge-real')
+            res.see('huge-real-inputs')
         budget = C.Budget(tier, quick=40.0)
         # (ii) mutated encodings and (iii) grammar trees
         for i in range(shard['n']):
@@ -315,7 +381,7 @@ def replay(case):
     sc = M.StepCounter()
     sc.start()
     try:
-        schema = B.schema(T) if T is not None else None
+        schema = None if T is None else (CUSTOM_SPECS[T]() if isinstance(T, str) else B.schema(T))
         run_input(res, sc, bytes.fromhex(hexdata), T, schema, 'replay')
     finally:
         sc.stop()
